@@ -32,10 +32,11 @@ META = {
     "level_text": ("partial: proved for the state-machine core (start / insert / abort / suspend / resume tokens / commit with "
                    "the refusal checks get_missing_compression_parent_keys and _check_new_inventories / reopen): abort "
                    "leaves pack-names, upload/ and the visible keys unchanged for every insertion sequence; "
-                   "suspend+resume+commit = commit on the same object (and across a reopen for 2a); a refused commit "
+                   "suspend+reopen+resume+commit = commit for every group built on a fresh object (2a and knit), guarded otherwise; a refused commit "
                    "changes nothing on disk; an accepted commit yields compression-closed (knit) / inventory-chk-text "
                    "complete (2a) content. Three statements are refuted in the model and reproduce on the real code "
-                   "(findings C06-knit-resume-forgets-missing-parents, C06-knit-stale-missing-parents). Pack file "
+                   "(findings C06-knit-stale-missing-parents, C06-resume-again-on-same-object; "
+                   "C06-knit-resume-forgets-missing-parents was repaired by /repo 3775d0a and is now a theorem). Pack file "
                    "formats, indices, autopack and the Rust knit/groupcompress code are covered only by the "
                    "correspondence run."),
     "level_note": ("Trusted: Coq kernel, vm_compute, the hand model's correspondence (bounded sampling of scripts), the "
@@ -48,7 +49,8 @@ META = {
     "assumptions": [
         "pack names are content hashes of the inserted record sequence (equal name <=> equal sequence)",
         "bzrformats _KnitGraphIndex keeps a per-object set of missing compression parents: added when a delta whose basis "
-        "is absent is inserted, removed when the key is inserted, never cleared (modelled field mcp)",
+        "is absent is inserted or (scan_unvalidated_index) a resumed pack holds one, removed when the key is inserted, "
+        "never cleared (modelled field mcp)",
         "bzrformats Pack.finish/_check_references raises BzrCheckError when a knit pack has a delta whose basis is in no "
         "index of the repository; groupcompress packs have no external references",
         "CHK maps are single leaf pages (<= 3 entries); an inventory entry is identified by its text key",
@@ -177,6 +179,11 @@ class Sim:
                 acc.append(tuple(t))
             self.resident += acc
             self.wg = [[], acc]
+            v = self.view()
+            for k in [k for p in acc for k in p]:   # scan_unvalidated_index of all four indices
+                c = self.comp(k)
+                if c is not None and c not in v and c not in self.mcp:
+                    self.mcp.append(c)
             self.newrevs = [k for p in acc for k in p if is_rev(k)]
             return "ok"
         if o == "commit":
@@ -647,8 +654,6 @@ def finding_matches(fid, inp, obs, why):
         return any(f[2] for f in facts)
     if inp["fmt"] != "knit":
         return False
-    if fid == "C06-knit-resume-forgets-missing-parents":
-        return any(f[0] for f in facts)
     if fid == "C06-knit-stale-missing-parents":
         return any(f[1] for f in facts)
     return False
@@ -793,9 +798,10 @@ def _twin_abort(rng, fmt):
 def corpus():
     k = "knit"
     return [
-        # finding C06-knit-resume-forgets-missing-parents: refused+aborted text 42 becomes visible later
+        # repaired by /repo 3775d0a (was finding C06-knit-resume-forgets-missing-parents): the resumed commit must be
+        # a clean refusal, the group stays usable, nothing of it leaks; reverting the repair fails these two cases
         {"fmt": k, "ops": [["start"], ["ins", 43], ["suspend"], ["reopen"], ["resume", [[43]]], ["ins", 42], ["commit"],
-                           ["abort"], ["start"], ["ins", 1], ["commit"]], "twin": None},
+                           ["ins", 41], ["commit"]], "twin": None},
         {"fmt": k, "ops": [["start"], ["ins", 43], ["suspend"], ["reopen"], ["resume", [[43]]], ["commit"]],
          "twin": [["start"], ["ins", 43], ["commit"]], "tail": 1, "twin_kind": "suspend/resume"},
         # finding C06-knit-stale-missing-parents: an aborted group makes the next, valid commit fail
@@ -819,7 +825,7 @@ def corpus():
 
 
 def cases(rng, tier):
-    n_rand, n_twin = (420, 120) if tier == "quick" else (2600, 700)
+    n_rand, n_twin = (300, 90) if tier == "quick" else (2600, 700)
     fm = ["2a", "2a-stacked", "knit"]
     for i in range(n_rand):
         fmt = fm[i % 3]
